@@ -118,6 +118,16 @@ def asXY (j : Json) : D (Int × Int) := do
   let kvs ← objKeys j
   pure (← asInt (← getReq kvs "x"), ← asInt (← getReq kvs "y"))
 
+/-- `EndpointDesc.dict_to_coord_obj`: a mapping with `x` and `y` becomes a coordinate, anything else
+    (a number, a list, a mapping without both keys) falls through the `match` and is dropped -/
+def asXYLenient (j : Json) : D (Option (Int × Int)) :=
+  match objKeys j with
+  | .ok kvs =>
+    match getOpt kvs "x", getOpt kvs "y" with
+    | some x, some y => do pure (some (← asInt x, ← asInt y))
+    | _, _ => pure none
+  | .error _ => pure none
+
 def decodeRange (j : Json) : D RangeSpec := do
   let kvs ← objKeys j
   checkKeys kvs ["start", "end", "size", "base", "idx", "desc"]
@@ -157,7 +167,7 @@ def decodeEp (j : Json) : D EpDesc := do
          ranges := ranges,
          mgr := ← optM (getOpt kvs "mgr_port_protocol") (fun j => do (← asList j).mapM asStr),
          sbr := ← optM (getOpt kvs "sbr_port_protocol") (fun j => do (← asList j).mapM asStr),
-         xyOffset := ← optM (getOpt kvs "xy_id_offset") asXY }
+         xyOffset := (← optM (getOpt kvs "xy_id_offset") asXYLenient).join }
 
 def decodeRt (j : Json) : D RtDesc := do
   let kvs ← objKeys j
